@@ -4,6 +4,8 @@ import (
 	"fmt"
 	"reflect"
 
+	ctime "verif/harness/internal/clock/time"
+
 	"verif/harness/internal/gal"
 )
 
@@ -121,10 +123,35 @@ func runGraphs(c *Ctx, prop string, width, depth int) error {
 			w.Count("repeat." + kind)
 		}
 	}
+	// ---- a user type that prints "time.Time" is an ordinary struct; the real time.Time stays unvalidated
+	for i := 0; i < 4; i++ {
+		wc := wclock()
+		exps := []expE{{"C", "WClock.At.S", "T61"}, {"C", "WClock.P.S", "T61"}, {"C", "WClock.Ls[0].S", "T61"}, {"C", "WClock.After", "T65"}}
+		var src interface{} = &wc
+		switch i {
+		case 1:
+			src = wc
+		case 2: // the zero value of the user type under required
+			wc.At = ctime.Time{}
+			exps = []expE{{"C", "WClock.At", "T63"}, {"C", "WClock.P.S", "T61"}, {"C", "WClock.Ls[0].S", "T61"}, {"C", "WClock.After", "T65"}}
+			src = &wc
+		case 3:
+			wc.P, wc.Ls = nil, nil
+			exps = []expE{{"C", "WClock.At.S", "T61"}, {"C", "WClock.After", "T65"}}
+			src = &wc
+		}
+		call := &walkCall{Entry: "struct", Src: src}
+		term, desc := call.caseTerm([]string{"SExpect true " + galExps(exps), "SNoPanic"})
+		w.Add(term, desc, fmt.Sprintf("user-type-named-time:%d", i))
+		w.Count("user-time-type")
+	}
 	// ---- cross-field groups (C02: "group clauses last", "exactly one clause per violated rule instance")
-	if prop == "C02" {
+	{
 		for i := 0; i < n/6; i++ {
 			src, exps, cell := wgs2Case(c.Rng)
+			if prop == "C04" || i%2 == 1 { // group members named by the path of the element they belong to
+				src, exps, cell = wgsCase(c.Rng)
+			}
 			call := &walkCall{Entry: "struct", Src: src}
 			spec := "SNil"
 			if len(exps) > 0 {
